@@ -42,7 +42,13 @@ ApplyOpt ==
   /\ k' = k + 1 /\ UNCHANGED <<sc, eff, phase>>
 
 \* the participants handed to the ordering contract: file loaders are priority-ordered with Order 0
-Part(i) == IF sc.opts[i].lk = "file" THEN [cls |-> "prio", ord |-> 0] ELSE [cls |-> "un", ord |-> 0]
+\* (user-written loaders may implement Ordered / Priority themselves: lk "ordm" "ordz" "ordp" are ordered with Order -1 0 1,
+\*  "priom" "priop" priority-ordered with Order -1 1; raw and args loaders are unordered)
+Part(i) == LET lkd == sc.opts[i].lk IN
+           CASE lkd = "file" -> [cls |-> "prio", ord |-> 0]
+             [] lkd = "priom" -> [cls |-> "prio", ord |-> 0 - 1] [] lkd = "priop" -> [cls |-> "prio", ord |-> 1]
+             [] lkd = "ordm" -> [cls |-> "ord", ord |-> 0 - 1] [] lkd = "ordz" -> [cls |-> "ord", ord |-> 0] [] lkd = "ordp" -> [cls |-> "ord", ord |-> 1]
+             [] OTHER -> [cls |-> "un", ord |-> 0]
 Parts == [j \in 1..Len(loaders) |-> Part(loaders[j])]
 \* the unordered loaders keep their list order (noneOrderedComponents is appended in input order)
 KeepsListOrder(p) == \A a, b \in 1..Len(p) : (a < b /\ Parts[p[a]].cls = "un" /\ Parts[p[b]].cls = "un") => p[a] < p[b]
@@ -77,11 +83,14 @@ C15_AddKeeps == phase = "ready" => (Len(loaders) = Len(Sources(sc.opts, NO)) /\ 
 C15_AddMonotone == [][(k' = k + 1 /\ (sc.opts[k + 1].kind \notin {"set", "init"} \/ sc.opts[k + 1].join)) => (Len(loaders') = Len(loaders) + 1 /\ SubSeq(loaders', 1, Len(loaders)) = loaders)]_vars
 \* effective configuration = deep merge in the loader sequence: last supplier wins, single suppliers stay visible
 Suppliers(p) == {i \in Range(Sources(sc.opts, NO)) : p \in sc.opts[i].keys}
-IsFile(i) == sc.opts[i].lk = "file"
-Winner(p) ==   \* the values that may win: of the last non-file supplier if any, else of any file (ties among files are free)
-  LET S == Suppliers(p)  nf == {i \in S : ~IsFile(i)} IN
+\* a supplier that every valid loader sequence places before another supplier cannot be the last one to write the key:
+\* the ordering contract (Precedes: priority < ordered < unordered, Order ascending, ties free) and, among the unordered
+\* loaders, the order in which they were added
+MustBeBefore(a, b) == Precedes(Part(a), Part(b)) \/ (Part(a).cls = "un" /\ Part(b).cls = "un" /\ a < b)
+Winner(p) ==   \* the values that may win: those of the suppliers that can come last
+  LET S == Suppliers(p) IN
   IF S = {} THEN {None} \cup {sc.opts[i].val : i \in {j \in 1..NO : sc.opts[j].kind # "init" /\ p \in sc.opts[j].keys}}   \* (left over from an earlier Initialize)
-  ELSE IF nf # {} THEN {sc.opts[CHOOSE i \in nf : \A j \in nf : j <= i].val} ELSE {sc.opts[i].val : i \in S}
+  ELSE {sc.opts[i].val : i \in {x \in S : ~\E y \in S \ {x} : MustBeBefore(x, y)}}
 C15_Fold == phase = "ready" => \A p \in Paths : eff[p] \in Winner(p)
 C15_SingleSupplierVisible == phase = "ready" => \A p \in Paths : (\E i \in Suppliers(p) : Suppliers(p) = {i}) => eff[p] \in {sc.opts[i].val : i \in Suppliers(p)}
 =============================================================================
